@@ -31,7 +31,7 @@ from sa.pat import match, same, attr_path
 from sa.types import base
 from .c20_util import (Counter, Accumulator, value_set, bind_args, compare, c_norm, c_const, fmt_count, parts_of, cases_of,
                        const_str, eq_const, cmp_norm, cmp_oriented, split_disj, range_over, is_zero, mentions, root_name,
-                       is_opaque, xexpand)
+                       is_opaque, xexpand, truth)
 
 SUBTREE = 'task._Repr.__print_task_subtree'
 REPR = 'task._Repr.repr'
@@ -72,6 +72,12 @@ def _table_names(ctx, f):
     """locals / parameters of f that hold a TextTable"""
     env = ctx.typer.locals_of(f)
     return {n for n, t in env.items() if base(t) == 'TextTable'}
+
+
+def _renders_table(v, tables):
+    """`<table>.text_repr(...)` (any arguments, positional or keyword) on one of the given table variables"""
+    return isinstance(v, ast.Call) and isinstance(v.func, ast.Attribute) and v.func.attr == 'text_repr' \
+        and isinstance(v.func.value, ast.Name) and v.func.value.id in tables
 
 
 def _is_param(f, e, idx=None):
@@ -306,8 +312,7 @@ def _rows(ctx):
         rets = [n for n in walk_no_nested(top.node) if isinstance(n, ast.Return)]
         for r in rets:
             v = ex.expand(r.value) if r.value is not None else None
-            m = match("$t.text_repr($*a)", r.value) if r.value is not None else None
-            if m and isinstance(m['t'], ast.Name) and m['t'].id in tables:
+            if r.value is not None and _renders_table(r.value, tables):
                 o.site(top, r, src(r.value))
             else:
                 o.undecided(top, r, r, "repr does not return <table>.text_repr(..)")
@@ -664,6 +669,10 @@ def _index_loop(fo, idx_name, len_ok, what):
     tgt = fo.target
     m = match("enumerate($x)", fo.iter)
     if m and isinstance(tgt, ast.Tuple) and len(tgt.elts) == 2 and isinstance(tgt.elts[0], ast.Name) and tgt.elts[0].id == idx_name:
+        x = m['x']
+        if isinstance(x, ast.Subscript) and isinstance(x.slice, ast.Slice) and not (x.slice.lower is None and x.slice.upper is None) \
+                and len_ok(ast.Call(func=ast.Name(id='len', ctx=ast.Load()), args=[x.value], keywords=[])):
+            return 'refute', f"{what} loop `{src(fo.iter)}` visits only a slice of the collection"
         return 'ok' if len_ok(ast.Call(func=ast.Name(id='len', ctx=ast.Load()), args=[m['x']], keywords=[])) else None
     if not (isinstance(tgt, ast.Name) and tgt.id == idx_name):
         return None
@@ -988,38 +997,76 @@ def _row_render(ctx):
             return
         _acc_returns(o, f, acc, "the rendered row")
 
+        state = {'assume': {}}
+
+        def leaf_kind(xv):
+            has_text = any(isinstance(x, ast.Attribute) and x.attr == 'text' for x in ast.walk(xv))
+            if isinstance(xv, ast.Call) and isinstance(xv.func, ast.Name) and xv.func.id == padf.name:
+                b = bind_args(xv, padf)
+                wd = b.get(padf.params[1]) if b else None
+                return 'cell' if has_text or (wd is not None and mentions(wd, wp)) else 'border'
+            if has_text:
+                return 'rawcell'
+            return 'border' if const_str(xv) is not None else 'other'
+
+        def leaves(xv, certain=True):
+            """an emitted (expanded) expression as the list of texts it contributes: [(kind, expr, certain)]"""
+            if isinstance(xv, ast.IfExp):
+                t = truth(xv.test, state['assume'])
+                if t is True:
+                    return leaves(xv.body, certain)
+                if t is False:
+                    return leaves(xv.orelse, certain)
+                return leaves(xv.body, False) + leaves(xv.orelse, False)
+            if const_str(xv) == '':
+                return []
+            ps = parts_of(xv)
+            if len(ps) > 1 and not any(isinstance(q, ast.FormattedValue) for q in ps):
+                out = []
+                for q in ps:
+                    out += leaves(q, certain)
+                return out
+            return [(leaf_kind(xv), xv, certain)]
+
         def kinds(node):
+            """every text the statement appends: [(kind, original expr, cfg node, expanded expr, certain, slot no, alternative no)]"""
             e = acc.emitted(node)
             if e is None:
                 return None
             at = cfg.node_of(node) or cfg.node_containing(node)
+            sub = _enumerate_subst(cfg.enclosing_fors(at), ex, cfg) if at is not None else {}
             out = []
-            for v, vat in value_set(f, e, at):
-                xv = ex.expand(v, vat)
-                has_text = any(isinstance(x, ast.Attribute) and x.attr == 'text' for x in ast.walk(xv))
-                if isinstance(xv, ast.Call) and isinstance(xv.func, ast.Name) and xv.func.id == padf.name:
-                    b = bind_args(xv, padf)
-                    wd = b.get(padf.params[1]) if b else None
-                    if has_text or (wd is not None and mentions(wd, wp)):
-                        out.append(('cell', v, vat, xv))
-                    else:
-                        out.append(('border', v, vat, xv))
-                elif has_text:
-                    out.append(('rawcell', v, vat, xv))
-                elif const_str(xv) is not None:
-                    out.append(('border', v, vat, xv))
-                else:
-                    out.append(('other', v, vat, xv))
+            for si, part in enumerate(parts_of(e) or [e]):
+                for ai, (v, vat) in enumerate(value_set(f, part, at)):
+                    xv = ex.expand(v, vat)
+                    if sub:
+                        xv = subst(xv, sub)
+                    for kind, leaf, certain in leaves(xv):
+                        out.append((kind, v, vat, leaf, certain, si, ai))
             return out
 
         def classify(node, g):
             ks = kinds(node)
             if ks is None:
                 return None
-            names = {k[0] for k in ks}
-            if names & {'cell', 'rawcell'}:
-                return 'cell'
-            return 'border' if names == {'border'} else 'other'
+            em = {}
+            for ev, members in (('cell', ('cell', 'rawcell')), ('border', ('border',)), ('other', ('other',))):
+                lo = hi = 0
+                for si in sorted({k[5] for k in ks}):
+                    alts = {}
+                    for k in [k for k in ks if k[5] == si]:
+                        a = alts.setdefault(k[6], [0, 0])
+                        if k[0] in members:
+                            a[1] += 1
+                            a[0] += 1 if k[4] else 0
+                    # alternatives of one slot that contribute nothing of this kind still count as 0
+                    n_alts = {k[6] for k in ks if k[5] == si}
+                    vals = [tuple(alts.get(ai, (0, 0))) for ai in n_alts]
+                    lo += min(v[0] for v in vals)
+                    hi += max(v[1] for v in vals)
+                if hi:
+                    em[ev] = {(): (lo, hi)}
+            return em or None
 
         # the column loop
         probe = Counter(ctx, classify=classify)
@@ -1062,6 +1109,7 @@ def _row_render(ctx):
                     o.undecided(f, lp, lp.iter, f"column loop `{src(lp.iter)}` is not a loop over the indexes of `{wp}`")
                 loop_ok = False
         for val in ((True, False) if bp else (None,)):
+            state['assume'] = {bp: val} if bp else {}
             c = Counter(ctx, classify=classify)
             em = c.summary(f, (), {bp: val} if bp else {})
             tag = f"border={'on' if val else 'off'}" if bp else 'all paths'
@@ -1072,15 +1120,31 @@ def _row_render(ctx):
             if loop_ok:
                 _verdict(o, f, f.node, f"cell per column {tag}", f"[{tag}] a cell is appended", em.get('cell', {}), {(wp,): (1, 1)})
             bc = c_norm(em.get('border', {}))
+            row_tests = []
             if any(lo != hi for lo, hi in bc.values()):
+                for _g, bn in c.event_nodes.get('border', []):
+                    bcn = cfg.node_of(bn) or cfg.node_containing(bn)
+                    tests = [t for t, _p in cfg.conditions(bcn)] if bcn is not None else []
+                    e_ = acc.emitted(bn)
+                    if e_ is not None:
+                        for v_, vat_ in value_set(f, e_, bcn):
+                            tests += [x.test for x in ast.walk(ex.expand(v_, vat_)) if isinstance(x, ast.IfExp)]
+                    row_tests += [t for t in tests if mentions(t, sn)]
+            if row_tests:
+                o.refute(f, f.node, row_tests[0], f"[{tag}] a border is appended only when `{src(row_tests[0])}` holds for this row "
+                                                  f"({fmt_count(bc)}): rows get different widths")
+            elif any(lo != hi for lo, hi in bc.values()):
                 o.undecided(f, f.node, f"border {tag}", f"[{tag}] the border is appended {fmt_count(bc)}: it may differ from row to row")
             else:
                 o.site(f, f.node, f"[{tag}] border appended {fmt_count(bc)}")
 
         # content of the cells
+        state['assume'] = {bp: True} if bp else {}
         wds = []
         for n in cell_nodes:
-            for kind, v, vat, xv in kinds(n):
+            for kind, v, vat, xv, _c, _s, _a in kinds(n):
+                if kind in ('border', 'other'):
+                    continue
                 if kind == 'rawcell':
                     o2.refute(f, n, v, f"cell text `{src(xv)[:80]}` is appended without colored_text(): it is not padded to the column width")
                     continue
@@ -1134,8 +1198,8 @@ def _row_render(ctx):
                 o2.refute(f, n, wd, f"present and missing cells are padded to different widths (`{src(wds[0][1])}` vs `{src(wd)}`)")
         # constant borders: text not longer than its width
         for n in [x for _g, x in probe.event_nodes.get('border', [])]:
-            for kind, v, vat, xv in kinds(n):
-                if isinstance(xv, ast.Call):
+            for kind, v, vat, xv, _c, _s, _a in kinds(n):
+                if kind == 'border' and isinstance(xv, ast.Call):
                     b = bind_args(xv, padf)
                     t, wd = const_str(b.get(padf.params[0])), facts.const_num(b.get(padf.params[1]))
                     if t is None or wd is None:
@@ -1686,8 +1750,7 @@ def _usage(ctx):
         c = Counter(ctx, classify=classify)
         main = None
         for r, em in c.exits(f, tables, {}):
-            m = match("$t.text_repr($*a)", r.value) if r is not None and r.value is not None else None
-            if m and isinstance(m['t'], ast.Name) and m['t'].id in tables:
+            if r is not None and r.value is not None and _renders_table(r.value, tables):
                 main = em if main is None else None
                 main_ret = r
         if main is None:
